@@ -12,6 +12,7 @@ mod probes;
 mod rng;
 mod rules;
 mod shrink;
+mod simclock;
 mod surface;
 mod trace;
 
@@ -757,6 +758,7 @@ fn evidence_json(
     }
     cov.put("witness_runs_per_property", wj);
     cov.put("hook_clock_reads", J::u(p.clock_reads));
+    cov.put("clock_reads_bypassing_the_hook_answered_by_the_interposed_clock_gettime", J::u(p.direct_clock_reads));
     cov.put("time_passing_inside_calls", J::obj().set("runs_with_a_clock_read_step", J::u(p.faults_fired[gen::F_CLOCK_TICK])).set("steps_during_which_the_clock_moved", J::u(p.calls_during_which_time_passed)).set("polls_whose_deadline_fell_inside_the_call", J::u(p.polls_straddling_deadline)));
     let mut ac = J::obj();
     for i in 0..(apimon::L::_count as usize) {
@@ -801,7 +803,7 @@ fn evidence_json(
                     J::s("Channel/U7/U14/ControllerNumber new/get/Display/FromStr, ControllerNumber predicates and constants"),
                 ]),
             )
-            .set("simulated", J::arr([J::s("clock (guarded hook: thread-local mock Instant)"), J::s("MIDI rig: talkers, wire/merger with faults, poll timer, operator, system talker")])),
+            .set("simulated", J::arr([J::s("clock (guarded hook: thread-local mock Instant; plus process-wide clock_gettime interposition inside API regions, so that direct std::time reads see the same simulated clock)"), J::s("MIDI rig: talkers, wire/merger with faults, poll timer, operator, system talker")])),
     );
     J::obj()
         .set("property_id", J::s(prop))
